@@ -1,14 +1,84 @@
+SYNCER_PREDICATES = {
+    "bisyncSlotMode": "{ if ro.cfg.Redis.IsCluster() { return bisyncSlotMode{} } slot := uint16(0) return bisyncSlotMode{ forceSlot: &slot, allowCrossSlot: true, } }",
+    "isBisyncControlCommand": "{ return touchesBisyncNamespace(cmd) }",
+    "isBisyncMarkerCommand": "{ if strings.ToLower(cmd.Cmd) != \"set\" || len(cmd.Args) < 2 { return false } key := util.BytesToString(cmd.Args[0]) return checkpoint.IsBisyncMarkerKey(key) }",
+    "isBisyncMarkerExpiryCommand": "{ switch strings.ToLower(cmd.Cmd) { case \"del\", \"unlink\": return len(cmd.Args) == 1 && checkpoint.IsBisyncMarkerKey(util.BytesToString(cmd.Args[0])) } return false }",
+    "isBisyncMirroredTransaction": "{ for _, cmd := range cmds { if isBisyncMarkerExpiryCommand(cmd) { continue } return isBisyncMarkerCommand(cmd) } return false }",
+    "isBisyncNamespaceKey": "{ return strings.HasPrefix(key, checkpoint.BisyncKeyPrefix+\":\") || strings.HasPrefix(key, config.CheckpointKey) }",
+    "touchesBisyncNamespace": "{ if len(cmd.Args) == 0 { return false } switch strings.ToLower(cmd.Cmd) { case \"del\", \"unlink\": for _, arg := range cmd.Args { if isBisyncNamespaceKey(string(arg)) { return true } } return false default: return isBisyncNamespaceKey(string(cmd.Args[0])) } }",
+}
+
+KEY_PREDICATES = {
+    "IsBisyncCommitIndexKey": "{ return strings.HasPrefix(key, BisyncKeyPrefix+\":\") && strings.Contains(key, \":index:{\") }",
+    "IsBisyncCommitKey": "{ return strings.HasPrefix(key, BisyncKeyPrefix+\":\") && strings.Contains(key, \":commit:{\") }",
+    "IsBisyncLatestKey": "{ return strings.HasPrefix(key, BisyncKeyPrefix+\":\") && strings.Contains(key, \":latest:{\") }",
+    "IsBisyncMarkerKey": "{ return strings.HasPrefix(key, BisyncKeyPrefix+\":\") && strings.Contains(key, \":marker:{\") }",
+    "IsBisyncRdbRecordKey": "{ return strings.HasPrefix(key, BisyncKeyPrefix+\":\") && strings.Contains(key, \":rdb:{\") }",
+}
+
 PROP = {
-    "lean_modules": ["GunYu.Model.BisyncSite"],
-    "audit_namespaces": [],
-    "required_theorems": [],
+    "lean_modules": ["GunYu.Props.C13"],
+    "audit_namespaces": ["GunYu.Props.C13"],
+    "required_theorems": [
+        "GunYu.Props.C13.mirrored_recognised",
+        "GunYu.Props.C13.bookkeeping_skipped",
+        "GunYu.Props.C13.foreign_never_suppressed",
+        "GunYu.Props.C13.foreign_emitted_standalone",
+        "GunYu.Props.C13.exactly_once_and_quiesce",
+        "GunYu.Props.C13.default_filter_ok",
+    ],
     "gens": ["c18", "c10"],
-    "expected_facts": {},
+    "expected_facts": {
+        "bisync_syncer_predicates": SYNCER_PREDICATES,
+        "bisync_key_predicates": KEY_PREDICATES,
+    },
     "harness": [{"name": "C13", "pkg": "./syncer/", "test": "TestVerifC13"}],
     "driver": "drv_C13",
-    "rule": "wip",
-    "trusted": [],
-    "assumptions": [],
-    "partial": [],
+    "rule": "(1) namespace predicates (5 Is…Key, isBisyncNamespaceKey, touchesBisyncNamespace, isBisyncMarkerCommand) on keys assembled from the reserved "
+            "prefixes/infixes and near misses, in 7 command shapes; (2) the harness-side site double (propagation rewrites) diffed against the Lean "
+            "`propagate` on scripts of client commands / MULTI blocks / clock advances / expiry visits under all 8 Redis propagation configs; "
+            "(3) the real parseAofReplayUnits on generated streams: client commands (24 shapes, typed key pools, values that are byte-identical "
+            "copies of marker values / control keys, keys one byte off the reserved prefixes), MULTI blocks (also unterminated, nested, stray EXEC), "
+            "mirrored transactions incl. DEL/UNLINK marker ahead of the marker SET, all stand-alone bookkeeping forms, PING/SELECT (valid, negative, "
+            "malformed)/PUBLISH/NoRoute commands, unknown commands with 4 COMMAND GETKEYS behaviours, cluster and standalone mode, optional extra "
+            "prefix/db blacklists; (4) closed-loop histories: two site doubles, both links = real parser over the encoded stream + real "
+            "execBisyncUnit (sync and journal mode, real frontier coordinator onCommitted/flush) / execBisyncRdbUnit / checkpoint-hash and "
+            "namespace-mode writes through a real RedisConn into the shared target double whose request log is executed at the destination site; "
+            "10-70 events per history (client commands and transactions at both sites, clients poking the reserved namespace, ticks incl. >24 h, "
+            "expiry visits incl. marker keys, link steps, snapshot units, bookkeeping), then a drain. Monitors: nothing the tool wrote comes back "
+            "as a unit or halts the opposite link; every vouched client/expiry block comes out; each applied exactly once; units committed during "
+            "the drain <= pending client blocks; commit = one MULTI of marker + business + record(+index); every stand-alone request the tool "
+            "issues has a form in the model. distinct_nontrivial is not used (histories are compared whole)",
+    "trusted": ["`propagate` (Model/BisyncSite.lean): transcription of what a Redis master writes to its replication stream — PX/EX->PXAT, "
+                "(P)EXPIRE(AT)->PEXPIREAT, RESTORE ttl->ABSTTL, no-op commands omitted, DEL/UNLINK of a key found expired propagated ahead of the "
+                "command that touched it (inside the same MULTI/EXEC), Redis>=7 and older MULTI/EXEC propagation; quantified over the 8 combinations "
+                "of RedisCfg; ZADD is always counted as a change",
+                "the harness-side site double (same function in Go, diffed against the Lean one) and the shared target double as request recorder"],
+    "assumptions": ["default output filter (NoRouteCmds + the two reserved prefixes): the property's quantifier does not range over user filters; a prefix "
+                    "whitelist or a slot filter that rejects marker/record keys would break recognition (observation, not a finding)",
+                    "client commands the world theorem ranges over (ClientOK): forwardable name (not MULTI/EXEC/SELECT/PING/PUBLISH, not on the command "
+                    "blacklist: FLUSHALL etc. are withheld by design, C10) and no ARGUMENT under a reserved prefix; the block-level theorem "
+                    "foreign_never_suppressed needs this only for keys and the first argument",
+                    "command names are ASCII (Go's Unicode case folding outside the model)",
+                    "parser, commit order, predicates tied by correspondence; key constructors, infix literals, TTL regenerated; predicate bodies compared with expectation"],
+    "partial": ["exactly_once_and_quiesce assumes per bookkeeping event that the request propagates as itself or not at all (BookClean: its keys carry no "
+                "TTL — the tool sets none on non-marker keys and clients stay out of the namespace); that store invariant is not derived",
+                "foreign_never_suppressed_stmt (hypothesis on keys only) is kept as a def: the code's namespace test looks at the first argument of every "
+                "command, so a key-less command whose first argument carries a reserved prefix (PUBLISH redis-gunyu-bisync:…) is skipped; the proved "
+                "theorem carries the first-argument hypothesis (fgn_of_keys shows it follows from the keys hypothesis when the first argument is a key)"],
 }
-MANIFEST = {"text": "wip", "note": "wip", "technique": "wip"}
+
+MANIFEST = {
+    "text": "Lean theorems: (mirrored_recognised) for every unit, commit mode, store, clock and Redis propagation variant, every block the commit "
+            "leaves in the site's stream — including DEL/UNLINK of the lazily expired marker ahead of the marker SET — is passed over by the opposite "
+            "link; (bookkeeping_skipped) every stand-alone bookkeeping request is skipped; (foreign_never_suppressed) a block of forwardable commands "
+            "outside the reserved namespace, whatever values it carries, comes out as exactly one unit with exactly its commands or stops the replay; "
+            "(exactly_once_and_quiesce) for all interleavings of client writes, ticks, expiries, link steps, snapshot units and bookkeeping at two "
+            "sites, each link's commits are exactly the consumed client blocks, once each, and after the last client block further link steps change "
+            "nothing. Tied to the code by differential correspondence of the predicates, the parser, the propagation double and whole closed-loop "
+            "histories through the real parser/commit code.",
+    "note": "trusted: Lean kernel, the `propagate` transcription of Redis's propagation rewrites, extractor, harness doubles; the world theorem assumes clean "
+            "propagation of bookkeeping requests per event (partial)",
+    "technique": "Lean 4 proof (parser lemmas over filtered block bodies, shape lemma for propagate, two-site invariant by induction over event lists) + "
+                 "differential correspondence + closed-loop monitors",
+}
